@@ -646,6 +646,9 @@ def _prepare_body(h, bound, fn, keep=()):
     prefix = []
     mapping = {}
     for p, a in bound.items():
+        if p in assigned_params and isinstance(a, ast.Name) and a.id == p and p in keep:
+            # `x = helper(x)`: the helper's own rebinding of x is what the caller's x becomes
+            continue
         if p in assigned_params or not isinstance(a, _SIMPLE):
             uses = sum(1 for n in ast.walk(holder) if isinstance(n, ast.Name) and n.id == p)
             if p in assigned_params or uses > 1:
@@ -821,6 +824,18 @@ def _try_stmt(s, fn, cls, h):
         if isinstance(target_node, ast.Tuple) and isinstance(v, ast.Tuple) and \
                 [ast.unparse(e) for e in v.elts] == [e.id for e in target_node.elts]:
             return []
+        if isinstance(target_node, ast.Tuple) and isinstance(v, ast.Tuple) and len(v.elts) == len(target_node.elts):
+            # element-wise, dropping `x = x`, when no target is read by a later value
+            tg, vs = [e.id for e in target_node.elts], v.elts
+            indep = all(not any(isinstance(x, ast.Name) and x.id == tg[k] for x in ast.walk(vs[j_]))
+                        for k in range(len(tg)) for j_ in range(k + 1, len(vs)))
+            if indep:
+                out_ = []
+                for t_, v_ in zip(tg, vs):
+                    if isinstance(v_, ast.Name) and v_.id == t_:
+                        continue
+                    out_.append(ast.copy_location(ast.Assign(targets=[ast.Name(id=t_, ctx=ast.Store())], value=v_), r))
+                return out_
         return [ast.copy_location(ast.Assign(targets=[_clone(target_node)],
                                              value=v if v is not None else ast.Constant(value=None)), r)]
     body2 = _early_to_else(body)
